@@ -13,7 +13,7 @@ import (
 
 func genC10(rt *rapid.T) Scenario {
 	return genScenario(rt, Profile{MinTargets: 1, MaxTargets: 2, MinSets: 2, MaxSets: 6, MultiTarget: true, Offline: true,
-		Faults: true, Transient: true, Standby: true, Preempt: 2, Drawn: true})
+		Faults: true, Transient: true, Standby: true, FaultInSync: true, Pace: true, Preempt: 2, Drawn: true})
 }
 
 // checkMastershipAtQuiescence: the master is empty or names an existing
@@ -113,6 +113,12 @@ func runC10(sc Scenario, x *vstat.Ctx) error {
 	for _, a := range sc.Actions {
 		if a.Kind != "set" {
 			x.Class("fault:" + a.Kind)
+		}
+	}
+	for _, s := range r.Sent {
+		if s.Ctl == "configuration" {
+			x.Class("a re-synchronisation pushed applied values")
+			break
 		}
 	}
 	if err := checkMastershipAtQuiescence(r); err != nil {
